@@ -42,7 +42,7 @@ def tool_env(build, extra=None):
         "PATH": "/usr/sbin:/usr/bin:/sbin:/bin",
         "LC_ALL": "C", "TZ": "GMT0",
         "E2FSCK_CONFIG": "/dev/null",
-        "MKE2FS_CONFIG": os.path.join(build, "tests", "mke2fs.conf"),
+        "MKE2FS_CONFIG": os.path.join(build, "tests", "mke2fs.conf.in"),
         "E2FSPROGS_SKIP_PROGRESS": "yes",
         "DEBUGFS_PAGER": "__none__",
         "E2FSPROGS_FAKE_TIME": "1600000000",
